@@ -82,7 +82,7 @@ Prog(stmts) == Do(stmts)                        \* rendered as a bare top-level 
 Idx(s) == 1..Len(s)
 
 (* ---- C05: errors, handlers, finally ---- *)
-Failing == << ErrN(S("a")), ErrN(I(1)), Var("zq"), Bin("/", I(1), I(0)), ErrN(ListN(<<I(1)>>)) >>
+Failing == << ErrN(S("a")), ErrN(I(1)), Var("zq"), Bin("/", I(1), I(0)), ErrN(ListN(<<I(1)>>)), ErrN(NullL) >>
 Plain   == << Log(I(1)), Log(I(2)) >>
 First1  == Plain \o Failing \o << Ret(I(7)) >>          \* first statement of a block
 Second1 == Plain \o Failing                             \* second statement
@@ -96,9 +96,11 @@ Catches == << << >>,
               << <<All, Ret(I(5))>> >>,
               << <<ListN(<<I(1)>>), I(4)>> >>,
               << <<Var("zq"), Log(I(8))>> >>,
-              << <<I(1), ErrN(S("b"))>> >> >>
+              << <<I(1), ErrN(S("b"))>> >>,
+              << <<NullL, Log(I(7))>>, <<S("a"), Log(I(8))>> >>,       \* a clause value NULL matches the error value NULL only
+              << <<NullL, Log(I(7))>> >> >>
 Fins == << << >>, <<Log(I(6))>>, <<ErrN(S("f"))>>, <<Ret(I(3))>> >>
-SmallCatch == {1, 2, 3, 11}          \* indices into Catches
+SmallCatch == {1, 2, 3, 11, 12}      \* indices into Catches
 SmallFin == {1, 2}
 InnerFirst == << Log(I(1)) >> \o Failing
 InnerSecond == << Log(I(2)), ErrN(S("a")) >>
@@ -114,6 +116,14 @@ InCtx(ctx, b) ==
     \* body travels through the loop / through eval unchanged
     [] ctx = 4 -> Prog(<<For(<<"x">>, "values", N("input", "", Null, <<ListN(<<S("a"), S("b")>>)>>), Do(<<Log(Var("x")), b>>)), Log(I(5))>>)
     [] ctx = 5 -> Prog(<<N("evalstr", "", Null, <<b>>), Log(I(5))>>)
+    \* 6 / 7: inside a function that a NATIVE calls back once per element (process_lines over lines; find with a key
+    \* function): the error crosses the native on its way out
+    [] ctx = 6 -> Prog(<<Def("h", Fn(<<Param("x")>>, Do(<<Log(Var("x")), b>>))),
+                         Blk(<<N("each", "lines", Null, <<N("input", "", Null, <<ListN(<<S("a"), S("b")>>)>>), Var("h")>>)>>, << >>, << >>), Log(I(5))>>)
+    \* 8: inside a loop over the member names of an object
+    [] ctx = 8 -> Prog(<<For(<<"x">>, "keys", ObjN(<< <<"a", I(1)>>, <<"b", I(2)>> >>), Do(<<Log(Var("x")), b>>)), Log(I(5))>>)
+    [] ctx = 7 -> Prog(<<Def("h", Fn(<<Param("x")>>, Do(<<Log(Var("x")), b>>))),
+                         Blk(<<N("each", "find", Null, <<ListN(<<S("a"), S("b")>>), Var("h")>>)>>, << >>, << >>), Log(I(5))>>)
 
 \* <<"e1", ctx, i1, i2, ic, if>>: one block, two statements
 E1Params(ctxs, CS, FS) == { <<"e1", ctx, i1, i2, ic, jf>> : ctx \in ctxs, i1 \in Idx(First1), i2 \in Idx(Second1),
@@ -172,9 +182,9 @@ E5Build(p) ==
 
 \* (operators with a dummy argument: TLC evaluates every zero-arity definition when it starts, and these sets are big;
 \*  only the MC_* module of the configuration that needs one evaluates it)
-ErrQuick(u) == E5Params \cup E6Params \cup E1Params({4, 5}, SmallCatch \cup {4}, SmallFin) \cup E4Params({1}) \cup E1Params({1}, Idx(Catches), Idx(Fins)) \cup E1Params({2}, SmallCatch, SmallFin)
+ErrQuick(u) == E5Params \cup E6Params \cup E1Params({4, 5, 6, 7, 8}, SmallCatch \cup {4}, SmallFin) \cup E4Params({1}) \cup E1Params({1}, Idx(Catches), Idx(Fins)) \cup E1Params({2}, SmallCatch, SmallFin)
             \cup E3Params \cup { p \in E2Params({1}) : p[8] \in {1, 2} /\ p[10] = 1 }
-ErrThorough(u) == E5Params \cup E6Params \cup E1Params({4, 5}, Idx(Catches), Idx(Fins)) \cup E2Params({4, 5}) \cup E4Params({1, 2, 3}) \cup E1Params({1, 2, 3}, Idx(Catches), Idx(Fins)) \cup E3Params \cup E2Params({1, 2, 3})
+ErrThorough(u) == E5Params \cup E6Params \cup E1Params({4, 5, 6, 7, 8}, Idx(Catches), Idx(Fins)) \cup E2Params({4, 5, 6}) \cup E4Params({1, 2, 3}) \cup E1Params({1, 2, 3}, Idx(Catches), Idx(Fins)) \cup E3Params \cup E2Params({1, 2, 3})
 
 (* ---- C04: loops, exits, ladders, comprehensions ---- *)
 L123 == ListN(<<I(1), I(2), I(3)>>)
